@@ -24,15 +24,18 @@ Section LexTree.
     | SStmt arm _ _ _ _ s p => LStatement (stmt_kw E arm) (lex_tree s) (lex_tree p)
     end.
 
-  (* every component list of the tree is non-empty (true of every tree that has a meaning) *)
-  Fixpoint lists_nonempty (t : sterm) : bool :=
-    match t with
-    | SAtom _ _ => true
-    | SSet _ _ _ items _ | SComp _ _ _ items _ =>
-        match items with [] => false | _ => true end && forallb lists_nonempty items
-    | SStmt _ _ _ _ _ s p => lists_nonempty s && lists_nonempty p
-    end.
 End LexTree.
+
+(* well-shaped trees: every arm index is in range and every component list is non-empty
+   (true of every tree that has a meaning: odesugar t = Some v) *)
+Fixpoint tree_ok (t : sterm) : bool :=
+  match t with
+  | SAtom arm _ => Nat.ltb arm (length parse_atom_arms)
+  | SSet _ _ _ items _ => match items with [] => false | _ => true end && forallb tree_ok items
+  | SComp arm _ _ items _ =>
+      Nat.ltb arm (length parse_compound_arms) && match items with [] => false | _ => true end && forallb tree_ok items
+  | SStmt arm _ _ _ _ s p => Nat.ltb arm (length parse_statement_arms) && tree_ok s && tree_ok p
+  end.
 
 (* every name of the tree consists of name characters of E *)
 Fixpoint names_ok (ia : N -> bool) (E : efmt) (t : sterm) : bool :=
